@@ -194,4 +194,25 @@ PROPS["C07"] = {
     "assumptions": COMMON_ASSUMPTIONS + ["slices are well formed (len <= cap)"],
 }
 
+PROPS["C13"] = {
+    "families": ["OF"], "ops": "rep,repx,embed", "gen_deps": [],
+    "rule": "rep: on every API-built value (every kind; valid histories) one of 14 scripts of Len() / MarshalBinary() calls (L, M, LL, MM, LM, ML, LML, MLM, LLMM, MMLL, LMLMLMLM, MMMM, LLLL, MLLM); every Len() in a script must give the same "
+            "number, every MarshalBinary() the same bytes, and the dump afterwards is compared with the model; repx: the same scripts on arbitrary literal values (correspondence only). Non-trivial = the encoder produced bytes.",
+    "trivial_outputs": ["err", "panic", "Merr", "-"],
+    "level_text": "Kernel-checked (Props/C13.lean, 105 theorems): round8 idempotent for every n; purity (Len()/MarshalBinary() leave the value unchanged) for the header, all 30 match payload kinds, match field, match, 23 action/spec kinds, instructions, hello elements and 20 message kinds; for the kinds that store something when sized or encoded (resubmit, controller, note, reg_load2, learn, CT NAT rounding, conntrack, apply-actions, bucket, group-mod, flow-mod, hello, switch-config, port-mod, port-status, switch-features, bundle property) the bundle Repeatable: a second Len() gives the same size and changes nothing further, a second MarshalBinary() gives the same bytes and changes nothing further, Len() after MarshalBinary() = Len() before, MarshalBinary() after Len() = MarshalBinary() alone — composing to every nesting depth of conntrack actions; Repeatable + size theorem give Len() after encoding = number of bytes. Oracle on the implementation: scripts of repeated calls on every API-built value.",
+    "level_note": OF_NOTE + " Repeatable is not yet proved for packet-out, vendor header, bundle-add, multipart request/reply, flow-stats and packet-in (same pattern with child hypotheses; decided by the rep oracle and the correspondence).",
+    "assumptions": COMMON_ASSUMPTIONS,
+}
+
+PROPS["C05"] = {
+    "families": ["OF"], "ops": "rtrip,rtparse,rtx,enc,dec", "gen_deps": [],
+    "rule": "rtrip / rtparse: every API-built value (every kind; valid histories incl. bundle-add wrapping any message) is encoded, the bytes are followed by 8 other bytes inside a larger backing array, decoded by the kind's "
+            "own decoder (elements) or by openflow13.Parse (top-level messages), and re-encoded: the re-encoding must equal the encoding and the reported size its length; rtx: the same on literal values (correspondence only); "
+            "dec: decoders on captured encodings with truncations / corruptions (correspondence). Non-trivial = the value was encoded.",
+    "trivial_outputs": ["err1", "panic", "-"],
+    "level_text": "Kernel-checked round-trip theorems (Props/C05.lean, 45 theorems; RoundTrip enc dec v v' bs := enc v = (bs, v) and dec (bs ++ tail, any spare capacity) = v' and enc v' = (bs, v')): header; all 30 match payload kinds in one statement; match fields of all three decodable classes (basic, NXM_1, ONF experimenter) with and without mask; matches with every field decoded from its position in the list; 12 standard / Nicira action kinds through DecodeAction; instructions incl. apply/write-actions over any action list; flow-mod (match + instructions + nested actions) , flow-removed, switch-config, hello with any number of padded elements, switch-features (32-byte form), port-status, error message, bundle property, packet-in with an opaque frame, and the six header-only messages through parse. Each statement covers the element followed by arbitrary bytes. The counterexamples the provers found were genuine defects, repaired and turned into these positive theorems (resubmit table id 7290f82, hello elements b558ac9, experimenter id 61f6847, features-reply DPID 7fc79d3); remaining proved counterexamples are stub kinds no constructor builds (ActionMplsTtl, ActionNwTtl, InstrMeter) and a hello element of unpadded length followed by another element. Oracle on the implementation: byte-exact round trip of every API-built value through the kind's decoder and through Parse.",
+    "level_note": OF_NOTE + " Known finding D28: Parse does not decode the controller-originated kinds packet-out, group-mod, port-mod, table-mod and multipart requests. Round-trip theorems for the remaining Nicira actions (reg_load, reg_move, output_reg, learn, NAT, conntrack, note, controller, dec_ttl_cnt_ids), buckets / group-mod, stats records and vendor messages are not written yet (decided by the oracle and the correspondence).",
+    "assumptions": COMMON_ASSUMPTIONS,
+}
+
 NOT_YET = {}
